@@ -94,6 +94,9 @@ enum Ev {
     CmdCancelAll,
     CmdCloseAll,
     SetLink { exchange: usize, mode: Link },
+    /// a disconnect notice of one exchange's account / market stream; with `halt` the strategy's on-disconnect hook
+    /// disables trading (a documented use of the hook): nothing is generated on that very event any more
+    Disconnect { exchange: usize, account: bool, halt: bool },
     Shutdown,
 }
 
@@ -195,7 +198,13 @@ fn to_open(r: &ReqSpec) -> OrderRequestOpen {
     fixtures::req_open(r.exchange, r.instr, &r.cid, Side::Buy, Decimal::from(100), Decimal::from(2))
 }
 fn to_cancel(r: &ReqSpec) -> OrderRequestCancel {
-    fixtures::req_cancel(r.exchange, r.instr, &r.cid, None)
+    let mut req = fixtures::req_cancel(r.exchange, r.instr, &r.cid, None);
+    // a third of the cancels are issued under ANOTHER strategy id than the one that opened the order (an operator's
+    // command, a supervising component): the tracked order a delivered cancel names is in flight all the same
+    if r.cid.bytes().map(|b| b as u32).sum::<u32>() % 3 == 0 {
+        req.key.strategy = barter_execution::order::id::StrategyId::new("operator");
+    }
+    req
 }
 
 #[derive(Debug, Clone, PartialEq, Eq, PartialOrd, Ord)]
@@ -353,6 +362,14 @@ fn run(case: &Case) -> Result<Outcome, V> {
             Ev::CmdCancelAll => EngineEvent::Command(Command::CancelOrders(InstrumentFilter::None)),
             Ev::CmdCloseAll => EngineEvent::Command(Command::ClosePositions(InstrumentFilter::None)),
             Ev::Shutdown => EngineEvent::shutdown(),
+            Ev::Disconnect { exchange, account, halt } => {
+                engine.strategy.disable_trading_on_disconnect.store(*halt, std::sync::atomic::Ordering::Relaxed);
+                if *halt && trading_before == TradingState::Enabled {
+                    out.cells.insert("on_disconnect_hook_disables_trading_while_enabled".into());
+                }
+                let id = exch_id[*exchange % exch_id.len()];
+                if *account { fixtures::ev_account_reconnecting(id) } else { EngineEvent::Market(barter_data::streams::consumer::MarketStreamEvent::Reconnecting(id)) }
+            }
             Ev::QueueAlgo(_) | Ev::SetLink { .. } => unreachable!(),
         };
         let is_command = matches!(ev, Ev::CmdOpen(_) | Ev::CmdCancel(_) | Ev::CmdCancelAll | Ev::CmdCloseAll);
@@ -750,7 +767,8 @@ fn gen_case(rng: &mut Rng, pattern: u64) -> Case {
             }
             84..=88 => Ev::CmdCancelAll,
             89..=92 => Ev::CmdCloseAll,
-            93..=97 => Ev::SetLink { exchange: rng.usize_below(N_EX), mode: *rng.pick(&[Link::Healthy, Link::Healthy, Link::Recoverable, Link::Closed]) },
+            93..=94 => Ev::Disconnect { exchange: rng.usize_below(N_EX), account: rng.bool(), halt: rng.chance(2, 3) },
+            95..=97 => Ev::SetLink { exchange: rng.usize_below(N_EX), mode: *rng.pick(&[Link::Healthy, Link::Healthy, Link::Recoverable, Link::Closed]) },
             _ => Ev::Market { instr: rng.usize_below(N_INSTR), t: clock, price: rng.range(50, 150) },
         };
         // keep `known` consistent: ids queued in CmdOpen lost their refusal suffix
@@ -942,6 +960,7 @@ fn main() {
         for c in [
             "cancel_of_tracked_order_sent",
             "close_all_with_a_close_strategy_that_also_cancels",
+            "on_disconnect_hook_disables_trading_while_enabled",
             "algo_batch_dropped_from_audit:delivered_open",
             "algo_batch_dropped_from_audit:delivered_cancel_of_tracked_order",
             "account_snapshot_not_listing_an_in_flight_order",
